@@ -1,4 +1,5 @@
 import MjProof.Lemmas.Constraint
+import MjProof.Lemmas.MakeImpedance
 /-
 C12  The constraint cost has consistent derivatives.
 
@@ -213,6 +214,97 @@ theorem elliptic_force_components (jar0 : ℝ) (jar : Fin n → ℝ) :
   ellBlock_force D0 mu D w jar0 jar
 
 end elliptic
+
+/-! ### the parameters come from `mj_makeImpedance`
+
+The elliptic theorems above assume the relation `D_j·mu² = D_0·friction_j²` between the regularisers
+of the rows of a contact.  `mj_constraintUpdate_impl` receives `efc_D` and `contact.mu` from
+`mj_makeImpedance`; the theorems below are about the model of that function (`impR`, `impEll`,
+`makeImpedance` in Model/Constraint.lean, compared bit-for-bit with the compiled function on
+assembled rows and on the constraint rows of generated scenes every run) and discharge the
+assumption: with the parameters that `mj_makeImpedance` produces — for ANY `efc_diagA`, impedance,
+`impratio` (also `≠ 1`) and any positive, possibly anisotropic, friction coefficients — the cost is
+convex and the forces are minus its gradient at every residual. -/
+section makeImpedance
+variable (diagA imp impratio f0 : ℝ) (fr : List ℝ)
+
+/-- Output of the contact loop of `mj_makeImpedance` for an elliptic contact of dimension
+    `fr.length + 2` whose normal row has `R[i] = R0`: the rows get `R0 :: impRt …` and the contact
+    `mu = impMu …`; with `R0 > 0` (the first loop clamps `R` at `mjMINVAL`: `impR_pos`) and positive
+    friction coefficients, `mu > 0`, and `D = 1/R` satisfies the relation for EVERY tangential row. -/
+theorem makeImpedance_elliptic_relation (hf0 : 0 < f0) (hfr : ∀ f ∈ fr, 0 < f) :
+    let R0 := impR diagA imp
+    let o := impEll R0 impratio f0 fr
+    0 < R0 ∧ o.R = R0 :: List.ofFn (impRt R0 impratio f0 fr) ∧ 0 < o.mu ∧
+      ∀ i, 1 / impRt R0 impratio f0 fr i * (o.mu * o.mu) = 1 / R0 * (impW f0 fr i * impW f0 fr i) := by
+  intro R0 o
+  have hR0 : 0 < R0 := impR_pos diagA imp
+  exact ⟨hR0, impEll_R R0 impratio f0 fr, impMu_pos hR0 hf0 impratio,
+    fun i => impEll_rel hR0 hf0 impratio fr hfr i⟩
+
+example : ∃ (f0 : ℝ) (fr : List ℝ), 0 < f0 ∧ ∀ f ∈ fr, 0 < f :=
+  ⟨1, [1 / 2, 1 / 200], by norm_num, by intro f hf; simp at hf; rcases hf with rfl | rfl <;> norm_num⟩
+
+/-- The pyramidal branch assigns one common positive `R` to all `2(dim−1)` rows of the contact
+    (those rows are one-sided quadratics: `nonneg_force_is_neg_deriv` applies with `D = 1/R ≥ 0`). -/
+theorem makeImpedance_pyramidal_rows (dim : ℕ) (hf0 : 0 < f0) :
+    let R0 := impR diagA imp
+    ∃ Rpy : ℝ, 0 < Rpy ∧ (impPyr R0 impratio f0 dim).R = List.replicate (2 * (dim - 1)) Rpy := by
+  intro R0
+  have hR0 : 0 < R0 := impR_pos diagA imp
+  have hmu := impMu_pos hR0 hf0 impratio
+  refine ⟨2 * impMu R0 impratio f0 * impMu R0 impratio f0 * R0, by positivity, ?_⟩
+  simp [impPyr, r_mul]
+
+/-- force = −∇cost, supporting hyperplanes and convexity for the elliptic block run with the
+    `efc_D = 1/efc_R` and `contact.mu` that `mj_makeImpedance` produces: no assumption relating the
+    parameters is left. -/
+theorem elliptic_derivatives_of_makeImpedance (hf0 : 0 < f0) (hfr : ∀ f ∈ fr, 0 < f) :
+    let R0 := impR diagA imp
+    let mu := (impEll R0 impratio f0 fr).mu
+    let D0 := 1 / R0
+    let D : Fin (fr.length + 1) → ℝ := fun i => 1 / impRt R0 impratio f0 fr i
+    let w := impW f0 fr
+    (∀ (jar0 : ℝ) (jar : Fin (fr.length + 1) → ℝ),
+      ∃ (fN : ℝ) (fT : Fin (fr.length + 1) → ℝ),
+        (ellBlock D0 jar0 mu (tsOf D w jar)).force = fN :: List.ofFn fT ∧
+        HasDerivAt (fun t => ellCost D0 mu D w t jar) (-fN) jar0 ∧
+        (∀ i, HasDerivAt (fun t => ellCost D0 mu D w jar0 (Function.update jar i t)) (-(fT i)) (jar i)) ∧
+        ∀ (x0 : ℝ) (x : Fin (fr.length + 1) → ℝ),
+          ellCost D0 mu D w jar0 jar + (-fN) * (x0 - jar0) + ∑ i, (-(fT i)) * (x i - jar i) ≤
+            ellCost D0 mu D w x0 x) ∧
+    ConvexOn ℝ Set.univ (fun v : ℝ × (Fin (fr.length + 1) → ℝ) => ellCost D0 mu D w v.1 v.2) := by
+  intro R0 mu D0 D w
+  have hR0 : 0 < R0 := impR_pos diagA imp
+  have hmu : 0 < mu := impMu_pos hR0 hf0 impratio
+  have hD0 : 0 ≤ D0 := (one_div_pos.mpr hR0).le
+  have hrel : ∀ i, D i * (mu * mu) = D0 * (w i * w i) := fun i => impEll_rel hR0 hf0 impratio fr hfr i
+  refine ⟨fun jar0 jar => ?_, elliptic_convex D0 mu D w hmu hD0 hrel⟩
+  obtain ⟨fN, fT, hf, hT⟩ := elliptic_force_is_neg_grad_tangent D0 mu D w hmu hD0 hrel jar0 jar
+  obtain ⟨fN', rest, hf', hN⟩ := elliptic_force_is_neg_grad_normal D0 mu D w hmu hD0 hrel jar0 jar
+  have e1 : fN' = fN := by rw [hf] at hf'; exact ((List.cons.inj hf').1).symm
+  refine ⟨fN, fT, hf, e1 ▸ hN, hT, fun x0 x => ?_⟩
+  obtain ⟨gN, gT, hg, hG⟩ := elliptic_gradient_inequality D0 mu D w hmu hD0 hrel x0 x jar0 jar
+  rw [hf] at hg
+  have e2 : gN = fN := ((List.cons.inj hg).1).symm
+  have e3 : gT = fT := (List.ofFn_injective ((List.cons.inj hg).2)).symm
+  rw [e2, e3] at hG
+  exact hG
+
+/-- The row loop of the model (`impGo`, the second loop of `mj_makeImpedance`) meeting the first row of
+    an elliptic contact with `R[i] = R0` writes exactly `(impEll R0 impratio friction[0] friction[1..dim-2]).R`
+    to the `dim` rows of the contact and `impMu …` to `contact.mu`, and continues behind the block:
+    the per-contact theorems above apply to every elliptic block of the array. -/
+theorem makeImpedance_loop_elliptic_block (R0 : ℝ) (id : ℕ) (cons : List (Contact ℝ)) (rest : List (ℝ × ℕ × ℕ))
+    (mus : List (Option ℝ)) (c : Contact ℝ) (ftail : List ℝ)
+    (hc : cons[id]? = some c) (hf : c.friction = f0 :: ftail)
+    (hok : ¬ (c.dim < 2 ∨ 6 < c.dim ∨ rest.length < c.dim - 1 ∨ ftail.length < c.dim - 2)) :
+    impGo impratio cons ((R0, cnstrElliptic, id) :: rest) mus =
+      (impGo impratio cons (rest.drop (c.dim - 1)) (setAt mus id (some (impMu R0 impratio f0)))).map
+        (fun p => ((impEll R0 impratio f0 (ftail.take (c.dim - 2))).R ++ p.1, p.2)) :=
+  impGo_elliptic_block impratio R0 id cons rest mus c f0 ftail hc hf hok
+
+end makeImpedance
 
 /-- Composition of rows: the cost returned by the update is the sum of the block costs, the force
     vector the concatenation of the block forces (blocks = `parse`), so the gradient of the returned
